@@ -276,3 +276,62 @@ def rule_preserve(repo, res):
                             "lex_preserve() has a path that does not return lexeme + char: a character inside a "
                             "comment, quoted string or units expression is dropped or altered",
                             where=f"pvl/lexer.py:{r.lineno}"))
+
+
+def rule_preserve_first(repo, res):
+    """PRESERVE-FIRST: inside a comment, quoted string or units expression everything is consumed verbatim: the
+    helpers that can open such a state test `preserve["state"]` before they look at the character class."""
+    for name in ("lex_char", "lex_singlechar_comments"):
+        fn = repo.function("lexer", name)
+        first = None
+        for st in fn.body:
+            if isinstance(st, ast.If):
+                first = st
+                break
+        ok = first is not None and "preserve['state']" in norm(first.test)
+        res.oblige("PRESERVE-FIRST", f"{name}: the preservation state is tested before the character class", ok=ok)
+        if not ok:
+            res.add(Finding("PRESERVE-FIRST", f"lexer.{name}", "first test",
+                            f"{name}() looks at the character (`{norm(first.test, 50) if first else ''}`) before testing "
+                            "preserve['state']: a comment opener, quote or units delimiter inside a comment/quoted string "
+                            "re-arms the state and ends the lexeme at the wrong place",
+                            where=f"pvl/lexer.py:{fn.lineno}"))
+
+
+def rule_lookahead(repo, res):
+    """LEX-LOOKAHEAD: char_allowed is consulted for the look-ahead character where the lexer decides to end a lexeme
+    (the yield condition of lexer() and lex_continue()), and for the current character only at the guard."""
+    fn, svar, loop, ivar, charvar = main_loop(repo)
+    nexts = {norm(n.targets[0]) for n in ast.walk(fn) if isinstance(n, ast.Assign) and _is_call_to(n.value, "_next_char")}
+    res.floor("look-ahead variable in lexer()", len(nexts), 1)
+    guard = None
+    for s_ in loop.body:
+        g = _guard_of(s_, charvar)
+        if g is not None:
+            guard = s_
+            break
+    n = 0
+    for c in ast.walk(loop):
+        if _is_call_to(c, "char_allowed"):
+            if guard is not None and any(c is x for x in ast.walk(guard)):
+                continue
+            n += 1
+            arg = norm(c.args[0]) if c.args else ""
+            ok = arg in nexts
+            res.oblige("LEX-LOOKAHEAD", f"lexer(): `{norm(c)}` outside the guard tests the look-ahead character", ok=ok)
+            if not ok:
+                res.add(Finding("LEX-LOOKAHEAD", "lexer.lexer", norm(c),
+                                f"the end-of-lexeme decision of lexer() calls `{norm(c)}`; the current character has already "
+                                "passed the guard, so this test is vacuous: a lexeme is no longer ended before a character "
+                                "outside the dialect's set (END directly followed by binary data raises instead of "
+                                "returning the label)", where=f"pvl/lexer.py:{c.lineno}"))
+    res.floor("char_allowed look-ahead tests in lexer()", n, 1)
+    lc = repo.function("lexer", "lex_continue")
+    params = [a.arg for a in lc.args.args]
+    calls = [c for c in ast.walk(lc) if _is_call_to(c, "char_allowed")]
+    ok = bool(calls) and all(c.args and norm(c.args[0]) == params[1] for c in calls)
+    res.oblige("LEX-LOOKAHEAD", "lex_continue(): char_allowed is asked about next_char", ok=ok)
+    if not ok:
+        res.add(Finding("LEX-LOOKAHEAD", "lexer.lex_continue", "char_allowed(next_char)",
+                        "lex_continue() no longer refuses to continue a lexeme into a character outside the dialect's set",
+                        where=f"pvl/lexer.py:{lc.lineno}"))
